@@ -104,3 +104,14 @@ func (ic *Credential) VerifNonrevConsumeBuilder() (*NonRevocationProofBuilder, e
 func VerifSumFourSquaresSpecial(n *big.Int) (*big.Int, *big.Int, *big.Int, *big.Int) {
 	return common.VerifSumFourSquaresSpecial(n)
 }
+
+// VerifNewCredentialBuilder builds a CredentialBuilder with the given (instead of freshly drawn)
+// state, so that ConstructCredential can be replayed deterministically.
+func VerifNewCredentialBuilder(pk *gabikeys.PublicKey, context, secret, nonce2, keyshareP, vPrime *big.Int, mUser map[int]*big.Int) *CredentialBuilder {
+	U := userCommitment(pk, secret, vPrime, mUser)
+	if keyshareP != nil {
+		U.Mul(U, keyshareP).Mod(U, pk.N)
+	}
+	return &CredentialBuilder{pk: pk, context: context, secret: secret, u: U, nonce2: nonce2, keyshareP: keyshareP,
+		vPrime: vPrime, vPrimeCommit: big.NewInt(0), mUser: mUser, mUserCommit: map[int]*big.Int{}}
+}
